@@ -4,7 +4,7 @@
 From Coq Require Import List ZArith Bool Permutation.
 From RtoscV Require Ports.NameModel.
 From RtoscV Require Import Save.TopoModel Save.KahnProofs Save.TopoProofs Save.TopoEdges Save.TopoPerm Save.TopoTree Save.TopoRegress.
-From RtoscV Require Save.DeclModel Save.DeclProofs.
+From RtoscV Require Save.DeclModel Save.DeclProofs Save.CondModel Save.CondProofs.
 From RtoscV Require Import Save.SaveModel Save.SaveProofs Save.RoundFull Save.CommuteProofs Save.PermApp.
 Import ListNotations.
 
@@ -73,6 +73,24 @@ Theorem C13_edges_complete_self : forall A apropos fuel (ms : list (message A)) 
   In (i, o) ps.
 Proof. exact edges_complete_self. Qed.
 
+(* "... including files where a depended-on port is itself absent": a reference that passes
+   through ports WITHOUT a line - k refers to u (by an entry of its own, a parent's or a "self:"
+   port's metadata), u has no line and refers on, ... up to t, which has one - makes k wait for t
+   (the recursive call of scan_deps).  [reaches] is the chain, Save/TopoEdges.v *)
+Theorem C13_edges_complete_through : forall A apropos fuel (ms : list (message A)) ps k o t i,
+  pushes A apropos fuel ms = Some ps ->
+  In k (map_keys A ms) -> index_of A k ms = Some o ->
+  reaches apropos (map_keys A ms) k k t -> index_of A t ms = Some i ->
+  In (i, o) ps.
+Proof. exact edges_complete_through. Qed.
+
+Theorem C13_edges_through_nonvacuous :
+  let ms := [([47; 97]%Z, tt); ([47; 99]%Z, tt)] in
+  reaches ex_thr_apropos (map_keys unit ms) [47; 97]%Z [47; 97]%Z [47; 99]%Z /\
+  has_key (map_keys unit ms) [47; 98]%Z = false /\
+  pushes unit ex_thr_apropos 5 ms = Some [(1%nat, 0%nat)].
+Proof. exact edges_through_example. Qed.
+
 (* The same for ANY message semantics (generic in [apply]): two files with the same lines
    (distinct addresses, acyclic edges) are handed out in orders that give the
    same final state and the same count, for every initial state.
@@ -119,6 +137,24 @@ Theorem C13_perm_invariant : forall a apropos fuel, wf_app a -> declared a aprop
         let r2 := apply_all a (map snd (map (fun i => nth i (msgs ls2) d) o2)) s0 in
         snd r1 = snd r2 /\ (snd r1 = true -> fst r1 = fst r2).
 Proof. exact perm_invariant_loader. Qed.
+
+(* ... and for the value load_from_file's body loop REPORTS (dispatch_printed: the scanned
+   messages with the bytes each took, the sort, the loop): two files holding the same messages
+   in any order return the same number - the number of lines when every line is accepted,
+   -rd_total-1 otherwise - and, when accepted, leave the same state *)
+Theorem C13_perm_invariant_reported : forall a apropos fuel, wf_app a -> declared a apropos ->
+  forall (its1 its2 : list item) ls1 ls2 tot1 tot2 ps1 ps2,
+    scan_items its1 = (ls1, tot1, true) -> scan_items its2 = (ls2, tot2, true) ->
+    rd_nonneg its1 -> Permutation its1 its2 -> NoDup (map l_path ls1) ->
+    pushes line apropos fuel (msgs ls1) = Some ps1 -> pushes line apropos fuel (msgs ls2) = Some ps2 ->
+    ranked ps1 -> ranked ps2 ->
+    forall s0, length s0 = length a ->
+    exists r st1 st2,
+      dispatch_printed apropos fuel a its1 s0 = Some (r, st1) /\
+      dispatch_printed apropos fuel a its2 s0 = Some (r, st2) /\
+      ((0 <= r)%Z -> st1 = st2 /\ r = Z.of_nat (length ls1)) /\
+      ((r < 0)%Z -> r = (- tot1 - 1)%Z).
+Proof. exact perm_invariant_reported. Qed.
 
 (* "a parameter message writes its own port and reads only its declared
    dependencies": lines for different ports neither of which has to precede the
@@ -215,3 +251,9 @@ Theorem C13_enumerated_inner_switch_before_fix_refuted :
   scan_deps apropos_ex6 [p_a1on; p_a1x; p_a1tx] 60 p_a1on p_a1on = Some [] /\
   resolve_entry true [115; 47]%Z [115; 47; 111; 110]%Z [47; 115]%Z = rel2abs [115; 47; 111; 110]%Z [47; 115]%Z.
 Proof. exact enumerated_inner_switch_before_fix_refuted. Qed.
+
+(* "the dependency edges of the file are acyclic" (ranked, premise of C13_topo and
+   C13_perm_invariant) is evaluated by the tie on the edges scan_deps' model produces for
+   every generated file: a ranking is computed by relaxation and checked *)
+Theorem C13_ranked_computed : forall ps, CondModel.ranked_b ps = true -> ranked ps.
+Proof. exact CondProofs.ranked_b_sound. Qed.
